@@ -7,6 +7,7 @@ from fractions import Fraction
 
 from ..core import frac
 from .. import c03_outlier as _outl
+from .. import c03_baf as _baf
 
 LEVEL = "proof"
 RULE = ("bin tables of 1..6 chromosomes (incl. X/Y) x 1..400 bins, optional centromere-sized gap (also at the two extreme "
@@ -35,7 +36,12 @@ RULE = ("bin tables of 1..6 chromosomes (incl. X/Y) x 1..400 bins, optional cent
         "drop_outliers(table, width {50,20,10}, factor {10,5,3,2.5,1,0.5}) on 1..4 chromosomes of width-1 / width / width+1 / "
         "width+2 / longer bins (noise, flat, all-zero, stepped log2; planted outliers on either side), trend and rolling "
         "quantile taken from the real savgol / rolling_quantile, the mask compared with the Lean model dropMask AND with the "
-        "rule generated from the source text (knife-edge elements excepted). non-trivial = a bin was filtered out or a chromosome "
+        "rule generated from the source text (knife-edge elements excepted). BAF column of the variants= branch (op seg_baf, "
+        "one in six): do_segmentation(bins, none / haar, variants=) on 1..3 chromosomes x 6..125 bins with level steps (several "
+        "segments per arm), dropped bins in front / at the end of a chromosome (stretched endpoints), a centromere-sized hole, "
+        "<= 50 SNVs per chromosome (frequencies k/64, some in dropped bins and in holes), table held with default / gapped / "
+        "permuted / offset labels, keyword / positional / implicit call: the real baf column compared with the Lean model "
+        "C03Baf.doSegBaf and judged by the oracle baf_of_own_range. non-trivial = a bin was filtered out or a chromosome "
         "was split into arms or more than one segment was reported; distinct by hash")
 EXHAUSTIVE = {"quick": False, "thorough": False}
 ASSUMPTIONS = ["input bins sorted, non-overlapping, positive length (a .cnr table)",
@@ -198,6 +204,14 @@ def gen_cases(rng, tier):
     orng.setstate(frng.getstate())
     for k in range(max(30, n // 4)):
         cases.append(_outl.gen_case(orng, k))
+    # round 5b: the BAF column of the `variants=` branch (op seg_baf, harness/c03_baf.py; a separate stream again)
+    brng = random.Random()
+    brng.setstate(orng.getstate())
+    for k in range(max(24, n // 5)):
+        cases.append(_baf.gen_case(brng, k))
+    import os
+    if os.environ.get("VERIF_C03_ONLY"):  # development / mutation runs: one op only (never set by ./check itself)
+        cases = [c for c in cases if c["op"] == os.environ["VERIF_C03_ONLY"]]
     return cases
 
 
@@ -635,6 +649,8 @@ def _tf_judge(case, impl, resp):
 
 
 def run_impl(case):
+    if case["op"] == "seg_baf":
+        return _baf.run_impl(case)
     if case["op"] == "outlier":
         return _outl.run_impl(case)
     if case["op"] == "transfer":
@@ -708,6 +724,8 @@ def _runs(segs, units_bins, keeps):
 
 
 def to_line(case, impl):
+    if case["op"] == "seg_baf":
+        return _baf.to_line(case, impl)
     if case["op"] == "outlier":
         return _outl.to_line(case, impl)
     if case["op"] == "transfer":
@@ -738,6 +756,8 @@ def _close(a, b):
 
 
 def judge(case, impl, resp):
+    if case["op"] == "seg_baf":
+        return _baf.judge(case, impl, resp)
     if case["op"] == "outlier":
         return _outl.judge(case, impl, resp)
     if case["op"] == "transfer":
@@ -773,6 +793,8 @@ def judge(case, impl, resp):
 
 
 def nontrivial(case, impl, resp):
+    if case["op"] == "seg_baf":
+        return _baf.nontrivial(case, impl, resp)
     if case["op"] == "outlier":
         return _outl.nontrivial(case, impl, resp)
     if isinstance(impl, dict) and "__error__" in impl:
@@ -785,6 +807,9 @@ def nontrivial(case, impl, resp):
 
 
 def shrink(case):
+    if case["op"] == "seg_baf":
+        yield from _baf.shrink(case)
+        return
     if case["op"] == "outlier":
         yield from _outl.shrink(case)
         return
